@@ -121,6 +121,16 @@ CHECKS = {
         "DESIGN.md 6 C07",
         TRUST,
     ),
+    "C10": (
+        "TLC exhaustive check of Coupling.tla (all interleavings of evaluate / interact / forcing step(dt) / move body / change "
+        "flow / flow step for 1-2 bodies sharing a forcing field, accumulate and reset mode, depth 5-9; ghost integral and clock; "
+        "action properties for frame conditions; integrate-on-evaluate variant refuted) + behaviours from TLC simulation replayed "
+        "call by call into real VirtualBoundaryForcing objects with the state compared after every call (bit-exact in double) + "
+        "random histories on RigidBodyFlowInteraction / CosseratRodFlowInteraction with the law evaluated on their own fields",
+        "Model checking over all short call histories + step-wise conformance of the implementation along spec behaviours.",
+        "DESIGN.md 6 C10",
+        TRUST,
+    ),
 }
 
 NOT_YET = "check not built yet in this round (see DESIGN.md 11 for the build order)"
